@@ -27,8 +27,8 @@ def run(ctx):
     if len(cases) != 340 + 17:
         ctx.broken("expected 357 generated cases, got %d" % len(cases))
     go = ctx.gotest(PKG, "^TestVerif_C22_", ["c22_test.go"], inputs={"cases.ndjson": cases},
-                    env={"VERIF_SEEDS": ctx.pick(24, 160), "VERIF_HB_SEEDS": ctx.pick(4, 24),
-                         "VERIF_LISTS_PER_SEED": ctx.pick(14, 40)},
+                    env={"VERIF_SEEDS": ctx.pick(24, 100), "VERIF_HB_SEEDS": ctx.pick(4, 16),
+                         "VERIF_LISTS_PER_SEED": ctx.pick(14, 30)},
                     label="coordination", timeout=ctx.pick(900, 3000))
     ctx.absorb(go)
     cnt = go.reports["calls"].get("counters") or {}
@@ -39,9 +39,15 @@ def run(ctx):
     if len([k for k in ranks if k.endswith("_of_4")]) < 2 and not ctx.violations:
         ctx.broken("the leader rank never varied between seeds: hidden choice not exercised")
     tp = ctx.trace_path(go, "trace_coordination")
-    ok, tr = ctx.validate_trace(SPEC, "Trace_Coordination", tp, cfg="Trace_Coordination", label="Trace_Coordination",
-                                timeout=ctx.pick(900, 2400))
+    # (ctx.validate_trace without TLC checkpointing: the StateDeque queue cannot be checkpointed and a long
+    #  validation on a loaded machine reaches TLC's 30 minute checkpoint interval)
     lines = open(tp).read().splitlines()
+    tr = ctx.tlc(SPEC, "Trace_Coordination", cfg="Trace_Coordination", mode="bfs", workers=1, timeout=ctx.pick(1500, 3300),
+                 dump_trace=False, label="Trace_Coordination", expect=("ok", "violation"),
+                 files={"trace.ndjson": tp}, view_queue=True, extra_args=["-checkpoint", "0"])
+    ok = tr.ok
+    if ok:
+        ctx.trace_events += len(lines)
     if ok:
         ctx.traces_validated += sum(1 for ln in lines if '"Reset"' in ln)
     elif tr.violated and tr.violated != "Postcondition":
@@ -58,8 +64,8 @@ def run(ctx):
                       {"trace_window": lines[max(0, hw - 25):hw + 2], "tlc": tr.out[-1500:]})
     return ctx.finish(
         level="model_checking",
-        rule="per seed (quick 24, thorough 160 concrete wallet x block-hash pairs, of which 4 / 24 draw a heartbeat): getSeed on 3 members and "
-             "2 blocks carrying the hash plus a block without hash; getLeader for a seeded sample (thorough: every 10th seed all 340) of the "
+        rule="per seed (quick 24, thorough 100 concrete wallet x block-hash pairs, of which 4 / 16 draw a heartbeat): getSeed on 3 members and "
+             "2 blocks carrying the hash plus a block without hash; getLeader for a seeded sample (thorough: every 25th seed all 340) of the "
              "operator lists of length <= 4 over 4 operators, each with two more views of the same set; getActionsChecklist for 17 blocks "
              "(window 0, non-multiples, multiples and non-multiples of 4); non-trivial = list with repetition or not sorted / window index > 0",
         assumptions=["model operators are mapped order-preservingly to concrete addresses (getLeader sorts by address string)",
